@@ -535,11 +535,35 @@ func genC02c(g *G, sc *Scenario, tier string) {
 		m.Create(d)
 	}
 	nw := g.Range(2, 3)
+	// a third of the runs: writers (batches and transactions) that keep storing the same few values, so that a write
+	// is identical to the current version or not depending on who committed last
+	flip := g.P(0.35)
 	for w := 0; w < nw; w++ {
 		var ops []Op
 		n := g.Range(1, 4)
 		for i := 0; i < n; i++ {
 			mark := fmt.Sprintf("t%do%d", w, i)
+			if flip {
+				mk := func() []Ent {
+					var ents []Ent
+					for k := g.Range(1, 2); k > 0; k-- {
+						ents = append(ents, Ent{"id": c.Pool[g.Intn(2)], "props": map[string]any{MkS + "w": g.Pick([]string{"a", "b"})}, "refs": map[string]any{}})
+					}
+					return ents
+				}
+				if g.P(0.5) {
+					var parts []Part
+					for _, d := range c.Datasets {
+						if len(parts) == 0 || g.P(0.5) {
+							parts = append(parts, Part{DS: d, Ents: mk()})
+						}
+					}
+					ops = append(ops, Op{K: "txn", Parts: parts})
+				} else {
+					ops = append(ops, Op{K: "batch", DS: c.Datasets[0], Ents: mk()})
+				}
+				continue
+			}
 			if len(c.Datasets) > 1 && g.P(0.3) {
 				var parts []Part
 				for _, d := range c.Datasets {
